@@ -1,10 +1,19 @@
 (* Parser/StreamFinal.v — the user-level theorems about the INDEX-LEVEL model of stream::Parser
    (Parser/StreamModel.v, the one that mirrors src/parser/stream.rs), obtained from the data refinement
-   (StreamRefine.v) and the laws of the abstract machine (StreamInv.v).
-     Part A  concrete caller schedules on [sp]; per-call and per-schedule laws; set_stream; initial state
-     Part B  record-level meaning of the specification functions (content_rcds, ended_rcds, replies_rcds)
-     Part C  the final theorems C02_delivery, C03_stream, C04_stream, C05_stream, C18_only_active
-   Everything is closed under the global context. *)
+   (StreamRefine.v) and the laws of the abstract machine (StreamInv.v).  For every max_conns; everything
+   is closed under the global context.
+     Part A   caller operations [cop] on [sp], [cstep]/[crun], legality, [sp_inv];
+              sparse_call (one legal call: Ok/Err, never a panic, all per-call facts, sticky errors),
+              concrete_schedule_law / concrete_schedule (every legal schedule),
+              set_stream_call / set_stream_no_panic / set_stream_later,
+              into_stream_parser_inv / into_stream_parser_targets (initial state)
+     Part B   record-level specification: rcd_effect_on, content_rcds, ended_rcds, replies_rcds and
+              CF_rcds, RA_rcds (the specification functions on enc_rcds rs ++ t), reply_for_stream_cases
+     Part B2  ends_from / EF / E: "the active stream has ended" as a specification function;
+              EF_rcds, ends_law (conserved by every call), csched_E, progress_law
+     Part C   C03_stream (+ reach, reach_inv), C04_stream, C04_stream_rcds(_exact), C05_stream,
+              C02_delivery(_exact), C02_stream_end, C02_end_reported, C18_only_active(_rcds)
+              and a worked instance (exf_*) showing the hypotheses are satisfiable. *)
 From Coq Require Import ZArith ZifyBool ZifyNat ZifyN.
 From FV Require Import Base.Bytes Base.BytesLemmas Gen.Generated Codec.Varint Codec.VarintProofs
   Codec.NV Codec.NVProofs Codec.Header Codec.Bodies Codec.Vars Codec.ProtoProofs
@@ -899,6 +908,12 @@ Proof.
 Qed.
 End Ends.
 
+Lemma ended_not_open role id sg rs : ended_rcds role id sg rs = true -> content_open role id sg rs = false.
+Proof.
+  unfold content_open. induction rs as [|r rs IH]; [discriminate|].
+  cbn [ended_rcds content_walk]. destruct (rcd_effect_on role id sg r); cbn [snd]; try exact IH; reflexivity.
+Qed.
+
 (* E: the active stream has ended somewhere in (unparsed bytes ++ not-yet-fed bytes) *)
 Definition E (a : ast) (u : bytes) : bool :=
   EF (r_role (a_req a)) (r_id (a_req a)) (a_stream a) (a_prem a) (a_pad a) (a_raw a ++ u).
@@ -1604,6 +1619,66 @@ Proof.
   rewrite app_assoc. apply Hall. right. exact Ht.
 Qed.
 
+(* ... and it IS reported: once the whole wire has been fed (nothing left outside the buffer) and the
+   stream has ended in the record list, a parse call without dest returns Ok, reports stream_end, stands
+   at the terminator, and the stream buffer completes the content: nothing is withheld. *)
+Theorem C02_end_reported rp r sp0 rs t ops new :
+  parser_ok rp -> st rp = Done r -> into_stream_parser rp = inl sp0 ->
+  Forall rcd_ok rs -> held rp ++ cfed ops ++ new = enc_rcds rs ++ t ->
+  csched_legal maxc sp0 ops -> call_legal (cfinal maxc sp0 ops) new None ->
+  let role := r_role r in let id := r_id r in
+  let sg := next_input_stream role None in
+  ended_rcds role id sg rs = true ->
+  exists p' s, sparse maxc (cfinal maxc sp0 ops) new None = StOk p' s /\
+    s_end s = true /\ stream_at_end p' = true /\ s_dest s = [] /\
+    cdelivered maxc sp0 ops ++ stream_buffer p' = content_rcds role id sg rs.
+Proof.
+  intros Hok Hst E0 Hrs Hw Hleg Hcall role id sg Hended.
+  set (pf := cfinal maxc sp0 ops) in *.
+  destruct (into_stream_parser_inv rp r Hok Hst) as (p0 & E0' & Hsp & Hq0 & Hs0 & _ & _ & _ & _ & _ & _ & Habs).
+  rewrite E0 in E0'. injection E0' as <-.
+  destruct (concrete_schedule maxc ops sp0 Hsp Hleg) as (_ & Ipf & Hs & Hq & _). fold pf in Ipf, Hs, Hq.
+  assert (Hsel : sel_ok sg) by apply next_input_none_ok.
+  assert (Hw0 : held rp ++ cfed ops ++ new ++ [] = enc_rcds rs ++ t) by (rewrite app_nil_r; exact Hw).
+  (* the terminator lies in what the parser has in front of it *)
+  assert (HE : E (abs pf) (new ++ []) = true).
+  { unfold pf. rewrite <- (csched_E maxc ops sp0 Hsp Hleg (new ++ [])). unfold E. rewrite Habs.
+    cbn [a_B a_space a_parsed a_raw a_out a_req a_stream a_prem a_pad a_st].
+    rewrite Hw0. etransitivity; [apply EF_rcds; assumption|].
+    change (ended_rcds role id sg rs || (content_open role id sg rs && EF role id sg 0 0 t) = true).
+    rewrite Hended. reflexivity. }
+  pose proof Ipf as [HRIf _].
+  destruct (sparse_refines maxc pf new None HRIf) as [Ga _].
+  destruct (sparse_call maxc pf new None Ipf Hcall) as [(p' & s & Eres & Hp & He)|(p' & e & s & Eres & _)].
+  - rewrite Eres in Ga. cbn [absres] in Ga.
+    assert (Hat : stream_at_end p' = true).
+    { destruct (progress_law maxc (abs pf) new None (abs p') s) as [Hprog _].
+      destruct (Hprog Ga eq_refl) as [H|H]; [exact H|].
+      rewrite <- (ends_law maxc (abs pf) new None (abs p') s (or_introl Ga) []) in H. congruence. }
+    exists p', s. split; [exact Eres|].
+    destruct Hp as (_ & Hs' & Hq' & _ & _ & _ & _ & _ & Hnone & _).
+    destruct (Hnone eq_refl) as [Hd _].
+    assert (Hse : s_end s = true).
+    { rewrite He. destruct (stream pf); [|reflexivity].
+      unfold stream_at_end in Hat. rewrite Hs', Hq' in Hat. exact Hat. }
+    split; [exact Hse|]. split; [exact Hat|]. split; [exact Hd|].
+    set (ops' := ops ++ [CParse new None]).
+    assert (Hleg' : csched_legal maxc sp0 ops') by (apply csched_legal_snoc; split; assumption).
+    assert (Hw' : held rp ++ cfed ops' ++ [] = enc_rcds rs ++ t).
+    { unfold ops'. rewrite cfed_snoc. cbn [cfed_of]. rewrite <- app_assoc. exact Hw0. }
+    assert (Hrun : crun maxc sp0 ops' = (p', cdelivered maxc sp0 ops ++ s_dest s, cemitted maxc sp0 ops ++ [])).
+    { unfold ops'. rewrite crun_snoc. fold pf. cbn [cstep]. rewrite Eres. reflexivity. }
+    destruct (C02_delivery rp r sp0 rs t ops' [] Hok Hst E0 Hrs Hw' Hleg') as (_ & _ & _ & _ & _ & Hall & _).
+    unfold cfinal, cdelivered in Hall. rewrite Hrun in Hall. cbn [fst snd] in Hall.
+    fold role id sg in Hall. rewrite Hd in Hall. rewrite (app_nil_r (cdelivered maxc sp0 ops)) in Hall.
+    rewrite (Hall (or_intror Hat)).
+    rewrite (ended_not_open role id sg rs Hended). apply app_nil_r.
+  - exfalso. rewrite Eres in Ga. cbn [absres] in Ga.
+    destruct (progress_law maxc (abs pf) new None (abs p') s) as [_ Herr].
+    pose proof (Herr e Ga []) as H.
+    rewrite <- (ends_law maxc (abs pf) new None (abs p') s (or_intror (ex_intro _ e Ga)) []) in H. congruence.
+Qed.
+
 (* ------------------------------------------------------------------------------------------------ *)
 (* C18: only the active stream is delivered; later streams are neither consumed nor lost             *)
 (* ------------------------------------------------------------------------------------------------ *)
@@ -1867,3 +1942,5 @@ Print Assumptions C18_only_active.
 Print Assumptions C18_only_active_rcds.
 Print Assumptions C02_delivery_exact.
 Print Assumptions C04_stream_rcds_exact.
+Print Assumptions progress_law.
+Print Assumptions C02_end_reported.
